@@ -127,23 +127,44 @@ def fixInvalidPlacement (c : Cell) (aid : Nat) : M Cell := do
         releaseIdentity c1 aid
       else return c
 
+/-- Sub-list of the ids satisfying a (possibly aborting) test. -/
+def selectM (p : Nat → M Bool) : List Nat → M (List Nat)
+  | [] => pure []
+  | x :: xs => do
+    let b ← p x
+    let r ← selectM p xs
+    pure (if b then x :: r else r)
+
+/-- `expires_at` of an app on a down server. -/
+def expiresAt (s : Srv) (a : App) : Int :=
+  match a.retention with
+  | none => 0
+  | some r => s.since + r
+
+/-- `expires_at <= time.time()`. -/
+def expiredOn (c : Cell) (s : Srv) (a : App) : Bool := decide (expiresAt s a ≤ c.now)
+
+/-- Which apps `_handle_inactive_servers` moves off server `s`. -/
+def toMoveOf (c : Cell) (s : Srv) : M (List Nat) :=
+  match s.state with
+  | .up => pure []
+  | .down => selectM (fun aid => do
+      let a ← orAbort (c.app? aid) "inactive: unknown app"
+      pure (expiredOn c s a)) s.apps
+  | .frozen => selectM (fun aid => do
+      let a ← orAbort (c.app? aid) "inactive: unknown app"
+      pure a.unschedule) s.apps
+
+/-- `server.remove(app.name); app.release_identity()` -/
+def removeRelease (sid : Nat) (c : Cell) (aid : Nat) : M Cell := do
+  let c1 ← serverRemove c sid aid
+  releaseIdentity c1 aid
+
 /-- `_handle_inactive_servers` for one server. -/
 def handleInactive (c : Cell) (sid : Nat) : M Cell := do
   let s ← orAbort (c.srv? sid) "inactive: unknown server"
-  let toMove : List Nat ← match s.state with
-    | .up => pure []
-    | .down => s.apps.filterM (fun aid => do
-        let a ← orAbort (c.app? aid) "inactive: unknown app"
-        let expiresAt := match a.retention with
-          | none => 0
-          | some r => s.since + r
-        pure (decide (expiresAt ≤ c.now)))
-    | .frozen => s.apps.filterM (fun aid => do
-        let a ← orAbort (c.app? aid) "inactive: unknown app"
-        pure a.unschedule)
-  toMove.foldlM (fun c aid => do
-    let c1 ← serverRemove c sid aid
-    releaseIdentity c1 aid) c
+  let toMove ← toMoveOf c s
+  toMove.foldlM (removeRelease sid) c
 
 /-- `_handle_blacklisted_apps` for one app. -/
 def handleBlacklisted (c : Cell) (aid : Nat) : M Cell := do
@@ -193,7 +214,6 @@ def Cell.tkey (c : Cell) (a : App) : TKey :=
 
 structure PState where
   cell    : Cell
-  evicted : List (Nat × Nat × Option Int)     -- app ↦ (server, placement_expiry)
   tracker : List (TKey × Vec)
   choices : List Nat
   deriving Repr
@@ -220,28 +240,24 @@ def cellPut (c : Cell) (aid : Nat) : M (Cell × Bool) := do
     if !rc then throw "cellput: search and put disagree"
     return (c2, true)
 
-def setEvicted (ev : List (Nat × Nat × Option Int)) (aid sid : Nat) (exp : Option Int) :
-    List (Nat × Nat × Option Int) :=
-  ev.filter (fun p => p.1 ≠ aid) ++ [(aid, sid, exp)]
-
-/-- The eviction loop: scan the reversed queue down to `aid`. -/
-def evictLoop (aid : Nat) : List Nat → Cell → List (Nat × Nat × Option Int) →
-    M (Cell × List (Nat × Nat × Option Int))
-  | [], c, ev => return (c, ev)
-  | e :: rest, c, ev =>
-    if e = aid then return (c, ev)
+/-- The eviction loop: scan the reversed queue down to `aid`.  `evicted[evicted_app] = (server,
+    placement_expiry)` is kept in the victim's ghost field `evFrom`. -/
+def evictLoop (aid : Nat) : List Nat → Cell → M Cell
+  | [], c => return c
+  | e :: rest, c =>
+    if e = aid then return c
     else do
       let ea ← orAbort (c.app? e) "evict: unknown app"
       match ea.server with
-      | none => evictLoop aid rest c ev
+      | none => evictLoop aid rest c
       | some sid =>
         let s ← orAbort (c.srv? sid) "assert evicted_app.server in servers"
-        if s.state ≠ .up then evictLoop aid rest c ev
+        if s.state ≠ .up then evictLoop aid rest c
         else
-          let ev' := setEvicted ev e sid ea.expiry
-          let c1 ← serverRemove c sid e
+          let c0 := c.setApp { ea with evFrom := some (sid, ea.expiry) }
+          let c1 ← serverRemove c0 sid e
           let (c2, rc) ← serverPut c1 aid sid false
-          if rc then return (c2, ev') else evictLoop aid rest c2 ev'
+          if rc then return c2 else evictLoop aid rest c2
 
 /-- `final_rank == _UNPLACED_RANK`: drop the placement (if any) and the identity. -/
 def unplacedBranch (c : Cell) (a : App) : M Cell := do
@@ -267,41 +283,41 @@ def renewStep (c : Cell) (a : App) : M (Cell × Option (Nat × Option Int)) := d
         pure (c'', some (sid, a.expiry))
   else pure (c, none)
 
-/-- `if app in evicted:` block: try to go back to the server the app was evicted from. -/
-def restoreEvicted (st : PState) (aid : Nat) : M (PState × Bool) :=
-  match st.evicted.find? (fun p => p.1 = aid) with
-  | some (_, from_, exp) => do
-    let a2 ← orAbort (st.cell.app? aid) "place: unknown app"
+/-- `if app in evicted:` block: try to go back to the server the app was evicted from.
+    (`del evicted[app]` is done after the restore here; the order of ghost bookkeeping is immaterial.) -/
+def restoreEvicted (c : Cell) (aid : Nat) : M (Cell × Bool) := do
+  let a2 ← orAbort (c.app? aid) "place: unknown app"
+  match a2.evFrom with
+  | some (from_, exp) =>
     if !a2.hasIdentity then throw "assert app.has_identity()"
     else
-      let ev := st.evicted.filter (fun p => p.1 ≠ aid)
-      let (c3, rc) ← serverRestore st.cell aid from_ exp
-      if rc then
-        let a3 ← orAbort (c3.app? aid) "place: unknown app"
-        pure ({ st with cell := c3.setApp { a3 with evicted := false }, evicted := ev }, true)
-      else pure ({ st with cell := c3, evicted := ev }, false)
-  | none => pure (st, false)
+      let (c3, rc) ← serverRestore c aid from_ exp
+      let a3 ← orAbort (c3.app? aid) "place: unknown app"
+      if rc then pure (c3.setApp { a3 with evFrom := none, evicted := false }, true)
+      else pure (c3.setApp { a3 with evFrom := none }, false)
+  | none => pure (c, false)
 
 /-- `self.put(app)`, the eviction loop, and the "Placement failed" epilogue. -/
 def tryPlace (revq : List Nat) (st : PState) (aid : Nat) (restore : Option (Nat × Option Int)) : M PState := do
   let a2 ← orAbort (st.cell.app? aid) "place: unknown app"
   let key := st.cell.tkey a2
   let (c3, placed) ← cellPut st.cell aid
-  let (c4, ev) ← (if placed then pure (c3, st.evicted) else evictLoop aid revq c3 st.evicted)
+  let c4 ← (if placed then pure c3 else evictLoop aid revq c3)
   let a4 ← orAbort (c4.app? aid) "place: unknown app"
-  if a4.server.isSome then return { st with cell := c4, evicted := ev }
+  if a4.server.isSome then return { st with cell := c4 }
   else match restore with
     | some (sid, exp) =>
       let (c5, _) ← serverRestore c4 aid sid exp
       let a5 ← orAbort (c5.app? aid) "place: unknown app"
-      return { st with cell := c5.setApp { a5 with renew := true }, evicted := ev }
+      return { st with cell := c5.setApp { a5 with renew := true } }
     | none =>
       let c5 ← releaseIdentity c4 aid
-      return { st with cell := c5, evicted := ev, tracker := trackerAdjust st.tracker key a2.demand }
+      return { st with cell := c5, tracker := trackerAdjust st.tracker key a2.demand }
 
 /-- After a successful `acquire_identity`. -/
 def afterAcquire (revq : List Nat) (st : PState) (aid : Nat) (restore : Option (Nat × Option Int)) : M PState := do
-  let (st, done) ← restoreEvicted st aid
+  let (c1, done) ← restoreEvicted st.cell aid
+  let st := { st with cell := c1 }
   if done then return st
   else
     let a2 ← orAbort (st.cell.app? aid) "place: unknown app"
@@ -339,7 +355,9 @@ def placeOne (revq : List Nat) (st : PState) (q : Nat × Bool) : M PState := do
 /-- `_find_placements(queue, servers)`. -/
 def findPlacements (c : Cell) (queue : List (Nat × Bool)) (choices : List Nat) : M (Cell × List Nat) := do
   let revq := (queue.map (·.1)).reverse
-  let st ← queue.foldlM (placeOne revq) { cell := c, evicted := [], tracker := [], choices := choices }
+  -- the `evicted` dict is local to this call
+  let c := { c with apps := c.apps.map (fun a => { a with evFrom := none }) }
+  let st ← queue.foldlM (placeOne revq) { cell := c, tracker := [], choices := choices }
   return (st.cell, st.choices)
 
 /-- `Cell.schedule()` with the per-partition queues (in `partitions` dict order) and the
